@@ -158,6 +158,7 @@ def run(rep):
     impl, model, spec = d.run(reqs)
     d.conclude('message.c (message_get_header, searchheader, unfoldheader) <-> Model/Header.lean')
     lst = locale_stage(rep, sc, rng)
+    import isolation; rep.coverage['isolation'] = isolation.stage(rep, proc.Tools(sc), 'C10')     # nothing leaks from one message / maildir / rule into the next (tools/isolation.py)
     vlib.lean_conclude(rep)
     nontriv = set(r for r, i, s in zip(reqs, impl, spec) if s is not None and r[0] == 'hget' and i.startswith('V'))
     multi = sum(1 for r, i in zip(reqs, impl) if r[0] == 'hget' and i.count(',') > 1)
@@ -184,4 +185,7 @@ def run(rep):
 
 
 def replay(rep, path):
+    import isolation
+    if isolation.replay_file(rep, path):
+        return
     mc.generic_replay(rep, path, 'C10', SPEC_OPS, {})
